@@ -33,7 +33,7 @@ func init() {
 			"oracle: reference rule for 'honoured' and the never-downgrade invariant; distinct = shape hash (store size, events, kind, signer, KeyInfo, clock mode, outcome) per step",
 		Directed:   c02Directed,
 		Run:        c02Run,
-		MustHit:    []string{"clock=nb", "clock=nb-1ns", "clock=na", "clock=na+1ns", "signer=untrusted", "signer=trusted-cert-foreign-key", "signer=tampered", "signer=twin-cert-not-in-store", "signer=lookalike-cert-foreign-key", "no_keyinfo", "store=0", "store=1", "store>=2", "store_error", "idp_key_rollover", "cert_retired", "store_replaced", "sp_restart", "kind=both-badR", "same_issuer_serial", "assertions_signed_by_different_parties"},
+		MustHit:    []string{"clock=nb", "clock=nb-1ns", "clock=na", "clock=na+1ns", "signer=untrusted", "signer=trusted-cert-foreign-key", "signer=tampered", "signer=twin-cert-not-in-store", "signer=lookalike-cert-foreign-key", "no_keyinfo", "store=0", "store=1", "store>=2", "store_error", "idp_key_rollover", "cert_retired", "store_replaced", "sp_restart", "kind=both-badR", "same_issuer_serial", "assertions_signed_by_different_parties", "bad_signature_of_irregular_shape"},
 		RandomRuns: map[string]int{"quick": 6000, "thorough": 60000},
 		Assumptions: []string{"X.509 validity is inclusive at both ends (NotBefore <= now <= NotAfter), certificate identity is DER equality",
 			"the SP certificate chain is never checked by the library, so stub certificates are issued by a stub CA"},
@@ -382,6 +382,18 @@ func c02Run(r *core.Run) {
 		if mixedGood {
 			hMain = hMain && honoured(goodCert, goodKey, false)
 		}
+		if shape := t.Int(12, "c02.sigshape"); !hMain && shape >= 1 && shape <= 3 {
+			// the non-verifying signature is, on top of that, irregular in shape (second KeyInfo, second or
+			// missing SignatureValue): it still refers to the message and must not be taken for "unsigned"
+			tid := m.ID
+			if kname == "assertions" {
+				tid = m.Assertions[mainAssertion].ID
+			}
+			if nx, ok := irregularSignature(xml, tid, shape); ok {
+				xml = nx
+				r.Fault("bad_signature_of_irregular_shape")
+			}
+		}
 		expectAccept := hMain
 		if kname == "both-badR" || kname == "both-good" {
 			// the root signature decides; a good assertion signature never rescues a bad root
@@ -505,6 +517,63 @@ func nestRootSignature(xml string) (string, bool) {
 			s, err := d.WriteToString()
 			return s, err == nil
 		}
+	}
+	return xml, false
+}
+
+// irregularSignature gives the ds:Signature child of the element with the given ID a shape oddity:
+// 1 a second (empty) KeyInfo, 2 a second SignatureValue, 3 no SignatureValue.
+func irregularSignature(xml, id string, mode int) (string, bool) {
+	d := etree.NewDocument()
+	if err := d.ReadFromString(xml); err != nil {
+		return xml, false
+	}
+	var owner *etree.Element
+	if world.PlainAttr(d.Root(), "ID") == id {
+		owner = d.Root()
+	} else {
+		for _, c := range d.Root().ChildElements() {
+			if world.PlainAttr(c, "ID") == id {
+				owner = c
+			}
+		}
+	}
+	if owner == nil {
+		return xml, false
+	}
+	for _, c := range owner.ChildElements() {
+		if c.Tag != "Signature" {
+			continue
+		}
+		pfx := c.Space
+		if pfx != "" {
+			pfx += ":"
+		}
+		var sv *etree.Element
+		for _, g := range c.ChildElements() {
+			if g.Tag == "SignatureValue" {
+				sv = g
+			}
+		}
+		switch mode {
+		case 1:
+			c.AddChild(etree.NewElement(pfx + "KeyInfo"))
+			if len(c.FindElements("./KeyInfo")) < 2 {
+				c.AddChild(etree.NewElement(pfx + "KeyInfo"))
+			}
+		case 2:
+			if sv == nil {
+				return xml, false
+			}
+			c.InsertChildAt(sv.Index()+1, sv.Copy())
+		case 3:
+			if sv == nil {
+				return xml, false
+			}
+			c.RemoveChild(sv)
+		}
+		out, err := d.WriteToString()
+		return out, err == nil
 	}
 	return xml, false
 }
